@@ -193,6 +193,19 @@ func epAuth(p Pair, side int) map[string]any {
 		}
 
 		return apiKey("X-Api-Key", "k1")
+	case p.Rel == "differ" && p.Comp == "ep_apikey_cookie":
+		// a cookie (a query parameter) named in other capitals is another cookie (parameter)
+		if side == 2 {
+			return map[string]any{"type": "api_key", "config": map[string]any{"in": "cookie", "name": "sid", "value": "k1"}}
+		}
+
+		return map[string]any{"type": "api_key", "config": map[string]any{"in": "cookie", "name": "Sid", "value": "k1"}}
+	case p.Rel == "differ" && p.Comp == "ep_apikey_query":
+		if side == 2 {
+			return map[string]any{"type": "api_key", "config": map[string]any{"in": "query", "name": "key", "value": "k1"}}
+		}
+
+		return map[string]any{"type": "api_key", "config": map[string]any{"in": "query", "name": "Key", "value": "k1"}}
 	case p.Rel == "shift" && p.Comp == "ep_apikey.k|v":
 		if side == 2 {
 			return apiKey("X-Api-Key", "v")
